@@ -60,6 +60,17 @@ CHECKS.update({
          "one client per world; double close() not generated; a mutant that drops the nested close list is unobservable with this transport model (closing connections finish in call order)", "3/C20"),
 })
 
+CHECKS.update({
+ "C01": ("producer-e2e", "exploration",
+         "history checker: one recorder per send Deferred (plus AlreadyCalledError trap) against the cluster's applied/acknowledged produce log with unique per-send keys and values",
+         "The real Producer -> KafkaClient -> broker clients -> codec stack runs against the simulated cluster under generated configurations (acks 0/1/-1, batched or not, gzip, attempt limits, both message formats) and fault plans (error codes, per-partition errors, silent/dropping brokers with the write applied or not, late replies, leader moves, restarts, client close, unroutable topic). Every send must fire exactly once by a computed horizon; success requires an error-free acknowledgement, delivered before the firing, from the partition's leader at apply time for a request containing exactly its messages (acks=0: written before the firing); anything else must be a failure.",
+         "leader truth is the cluster model's; sends still queued below thresholds with no time limit are C19's subject", "3/C01"),
+ "C09": ("producer-e2e", "exploration",
+         "trace checker over the produce requests in the order the client wrote them (parsed by the independent codec), the responses delivered, producer batch hand-overs, client-call counts and retry timers",
+         "Same engine plus a zero-latency timing workload and a mixed-outcome workload (one batch over several leaders, first attempt partially failing, leader going away before the retry, client closed mid-retry). Checked: order and contiguity inside payloads and in the final logs, one payload per attempt, no batch handed to the client while an earlier one is unresolved, a payload whose error-free acknowledgement was received is never written again and is reported before the batch's next attempt, attempts (on the wire and at the producer->client boundary) never exceed the maximum, retry delays geometric from the configured interval and reset when the batch resolves.",
+         "observes Producer._send_requests / _complete_batch_send / client.send_produce_request and the reactor's callLater through harness wrappers; traffic after stop() is left to C19", "3/C09"),
+})
+
 PENDING = {}
 
 def main():
@@ -94,6 +105,7 @@ def main():
             {"name": "pure", "path": "afkverif/props", "serves_properties": ["C15", "C18"], "kind_free_text": "direct calls of pure functions under generated inputs with reference oracles"},
             {"name": "brokerclient", "path": "afkverif/engines/bc.py", "serves_properties": ["C06", "C10"], "kind_free_text": "real _KafkaBrokerClient / KafkaBootstrapProtocol over simnet (virtual clock, in-memory transports) against a scripted raw server"},
             {"name": "client-e2e", "path": "afkverif/engines/world.py", "serves_properties": ["C07", "C11", "C20"], "kind_free_text": "real KafkaClient stack on SimClock + simnet against simkafka (cluster model speaking the independent codec)"},
+            {"name": "producer-e2e", "path": "afkverif/engines/prod.py", "serves_properties": ["C01", "C09", "C19"], "kind_free_text": "real Producer on the real client stack against simkafka with seeded fault plans; unique keys/values make histories unambiguous"},
             {"name": "codec", "path": "afkverif/refproto.py", "serves_properties": ["C04", "C05", "C12"], "kind_free_text": "independent strict Kafka wire codec used as differential oracle"},
         ],
         "checks": checks,
